@@ -53,6 +53,9 @@ type Pool struct {
 	byID    map[acme.EntityID]int
 	byIface map[*acme.NodeInterface]int
 	kinds   map[Kind][]int
+	// default CAN-ID builders obtained from Bus.CANIDBuilder() (at construction and after
+	// SetCANIDBuilder(nil)) and held by the caller while the buses move to other builders
+	defBuilders []*acme.CANIDBuilder
 }
 
 func newPool() *Pool {
@@ -196,6 +199,20 @@ func (p *Pool) newBus(name int64) {
 	b := acme.NewBus(nameStr(name))
 	h := p.add(&Ent{K: KBus, Bus: b})
 	p.register(b.EntityID(), h)
+	p.holdDefault(b)
+}
+
+func (p *Pool) holdDefault(b *acme.Bus) {
+	cb := b.CANIDBuilder()
+	if cb == nil || !b.VerifIsDefCANIDBuilder() {
+		return
+	}
+	for _, d := range p.defBuilders {
+		if d == cb {
+			return
+		}
+	}
+	p.defBuilders = append(p.defBuilders, cb)
 }
 
 func (p *Pool) newNode(name, id, count int64) {
